@@ -129,6 +129,10 @@ type fakeIDP struct {
 	staleRTUse      int
 	initialTokenPad string // appended to access tokens issued for a code (big initial sessions)
 	accessTokenPad  string // appended to access tokens issued on refresh (growing sessions)
+	// accessJWT: "" = opaque access tokens; otherwise access tokens are JWTs (Keycloak style, realm roles):
+	// "good", "garbage" (not a JWT), "other-key" (signed by another key), "roles-wrong-type", "aud-other"
+	accessJWT        string
+	accessJWTRefresh string // same, for the access token returned by the refresh grant ("" = follow accessJWT)
 	refreshNonce    string // nonce claim to put into refreshed ID tokens of sessions the harness crafted itself
 }
 
@@ -272,6 +276,38 @@ func (p *fakeIDP) idToken(user idpUser, nonce string) string {
 	return p.signClaims(claims)
 }
 
+// accessToken mints the access token of a token response (caller holds p.mu).
+func (p *fakeIDP) accessToken(user idpUser, opaque string, mode string) string {
+	if mode == "" {
+		return opaque
+	}
+	now := time.Now()
+	claims := map[string]interface{}{
+		"iss": p.url(), "sub": user.Sub, "aud": p.clientID, "iat": now.Unix(), "exp": now.Add(p.tokenTTL).Unix(),
+		"realm_access":    map[string]interface{}{"roles": []string{"r-" + user.Sub}},
+		"resource_access": map[string]interface{}{p.clientID: map[string]interface{}{"roles": []string{"cr"}}},
+	}
+	main, other := idpKeys()
+	switch mode {
+	case "good":
+		return signJWT("RS256", "k1", main, nil, claims)
+	case "garbage":
+		return opaque
+	case "other-key":
+		return signJWT("RS256", "k1", other, nil, claims)
+	case "roles-wrong-type":
+		claims["realm_access"] = "admin"
+		return signJWT("RS256", "k1", main, nil, claims)
+	case "aud-other":
+		claims["aud"] = "someone-else"
+		return signJWT("RS256", "k1", main, nil, claims)
+	case "expired":
+		claims["exp"] = now.Add(-time.Hour).Unix()
+		return signJWT("RS256", "k1", main, nil, claims)
+	}
+	panic("accessJWT " + mode)
+}
+
 func (p *fakeIDP) signClaims(claims map[string]interface{}) string {
 	main, other := idpKeys()
 	var tok string
@@ -331,7 +367,7 @@ func (p *fakeIDP) token(w http.ResponseWriter, form url.Values) {
 		rt := fmt.Sprintf("rt-%d", p.rtSeq)
 		p.refresh[rt] = g.user
 		resp := map[string]interface{}{
-			"access_token": fmt.Sprintf("at-%d", p.rtSeq) + p.initialTokenPad, "token_type": "Bearer", "expires_in": int(p.tokenTTL.Seconds()),
+			"access_token": p.accessToken(g.user, fmt.Sprintf("at-%d", p.rtSeq)+p.initialTokenPad, p.accessJWT), "token_type": "Bearer", "expires_in": int(p.tokenTTL.Seconds()),
 			"refresh_token": rt, "id_token": p.idToken(g.user, g.nonce),
 		}
 		b, _ := json.Marshal(resp)
@@ -353,7 +389,12 @@ func (p *fakeIDP) token(w http.ResponseWriter, form url.Values) {
 			p.refresh[newRT] = user
 		}
 		resp := map[string]interface{}{
-			"access_token": fmt.Sprintf("at-%d", p.rtSeq) + p.accessTokenPad, "token_type": "Bearer", "expires_in": int(p.tokenTTL.Seconds()),
+			"access_token": p.accessToken(user, fmt.Sprintf("at-%d", p.rtSeq)+p.accessTokenPad, func() string {
+				if p.accessJWTRefresh != "" {
+					return p.accessJWTRefresh
+				}
+				return p.accessJWT
+			}()), "token_type": "Bearer", "expires_in": int(p.tokenTTL.Seconds()),
 			"refresh_token": newRT,
 		}
 		if p.refreshReturnsIDToken {
